@@ -138,6 +138,41 @@ def checkFrom (cfg : Cfg) (g : Graph) (fuel : Nat) : St → List Nat → Res × 
 def check (cfg : Cfg) (g : Graph) (nodes : List Nat) : Res :=
   (checkFrom cfg g (nodes.length + 1) ⟨[], []⟩ nodes).1
 
+/-! ### the detector as a state machine over a sequence of checks
+
+Production keeps ONE `cycleDetector` per build and calls `Check()` on it again and again while the graph is still
+growing.  `DetState` is what persists in the detector between two calls; `Persist` says which of the two sets of
+`Check` are kept there (read from the source: a set that is a local of `Check` does not persist, a struct field does).
+In the pinned code both are locals, so nothing persists. -/
+
+/-- what a `cycleDetector` carries from one `Check()` to the next -/
+structure DetState where
+  part : List Nat
+  comp : List Nat
+deriving Repr
+
+/-- which sets of `Check` live in the detector (struct fields) instead of being locals of one call -/
+structure Persist where
+  comp : Bool
+  part : Bool
+deriving DecidableEq, Repr
+
+/-- the pinned code: both maps are locals of `Check` -/
+def Persist.none : Persist := ⟨false, false⟩
+
+/-- one `Check()` call on the graph as it is at that moment -/
+def checkS (cfg : Cfg) (p : Persist) (st : DetState) (g : Graph) (nodes : List Nat) : DetState × Res :=
+  let s0 : St := ⟨if p.part then st.part else [], if p.comp then st.comp else []⟩
+  let r := checkFrom cfg g (nodes.length + 1) s0 nodes
+  (⟨r.2.part, r.2.comp⟩, r.1)
+
+/-- a sequence of `Check()` calls on one detector; the `i`-th call sees the `i`-th graph -/
+def runSeq (cfg : Cfg) (p : Persist) : DetState → List (Graph × List Nat) → List Res
+  | _, [] => []
+  | st, (g, nodes) :: rest =>
+    let r := checkS cfg p st g nodes
+    r.2 :: runSeq cfg p r.1 rest
+
 /-- Well-formed graph: dependencies of listed targets are listed (the graph holds every resolved dependency). -/
 def WF (g : Graph) (nodes : List Nat) : Prop := ∀ t ∈ nodes, ∀ d ∈ g t, d ∈ nodes
 
